@@ -90,6 +90,9 @@ def truth(v: Val):
     if isinstance(v, VOpt):
         inner = mk_val(v.sort.the(v.t), v.sort.inner)
         return z3.And(z3.Not(v.sort.is_none(v.t)), truth(inner))
+    if isinstance(v, VUnion):
+        tg = PyU.tag(v.t)
+        return z3.If(tg == 1, z3.Length(PyU.s(v.t)) > 0, z3.If(tg == 2, PyU.i(v.t) != 0, z3.If(tg == 3, PyU.b(v.t), tg == 4)))
     if isinstance(v, VRec) and v.sort.nm == "PyVal":
         k = v.sort.get(v.t, "kind")
         return z3.If(k == 1, z3.Length(v.sort.get(v.t, "s")) > 0,
@@ -181,6 +184,21 @@ def coerce(v: Val, s: Sort) -> Val:
             return v
         if isinstance(v, VOpt) and isinstance(v.sort.inner, TRefS):
             return VRef(z3.If(v.sort.is_none(v.t), 0, v.sort.the(v.t)), s.cls)
+    if isinstance(s, TUnionS):
+        if isinstance(v, VUnion):
+            return v
+        if isinstance(v, VNone):
+            return VUnion(s.mk(0))
+        if isinstance(v, VStr):
+            return VUnion(s.mk(1, s=v.t))
+        if isinstance(v, VBool):
+            return VUnion(s.mk(3, b=v.t))
+        if isinstance(v, VInt):
+            return VUnion(s.mk(2, i=v.t))
+        if isinstance(v, VRef):
+            return VUnion(s.mk(4, r=v.t), ref_cls=v.cls)
+    if isinstance(v, VUnion) and getattr(v, "_narrowed", None) is not None:
+        return coerce(v._narrowed, s)
     if isinstance(s, TFuncS):
         if isinstance(v, VFuncRef):
             return v
@@ -329,6 +347,23 @@ def list_contains(v, x):
 
 def val_eq(a: Val, b: Val):
     "python == as a z3 Bool"
+    if isinstance(a, VUnion) or isinstance(b, VUnion):
+        if not isinstance(a, VUnion):
+            a, b = b, a
+        tg = PyU.tag(a.t)
+        if isinstance(b, VUnion):
+            return a.t == b.t
+        if isinstance(b, VNone):
+            return tg == 0
+        if isinstance(b, VStr):
+            return z3.And(tg == 1, PyU.s(a.t) == b.t)
+        if isinstance(b, VBool):
+            return z3.And(tg == 3, PyU.b(a.t) == b.t)
+        if isinstance(b, VInt):
+            return z3.And(tg == 2, PyU.i(a.t) == b.t)
+        if isinstance(b, VRef):
+            return z3.And(tg == 4, PyU.r(a.t) == b.t)
+        return z3.BoolVal(False)
     if isinstance(a, VNone) or isinstance(b, VNone):
         return val_is(a, b)
     if isinstance(a, VBool) and isinstance(b, VBool):
@@ -374,6 +409,8 @@ def val_is(a: Val, b: Val):
     if isinstance(b, VNone):
         a, b = b, a
     if isinstance(a, VNone):
+        if isinstance(b, VUnion):
+            return PyU.tag(b.t) == 0
         if isinstance(b, VRef):
             return b.t == 0
         if isinstance(b, VOpt):
@@ -397,19 +434,23 @@ def empty_dict(s: TDict) -> VDict:
 
 
 def dict_has(d: VDict, k: Val):
-    return d.sort.dom(d.t, term_of(k, d.sort.k))
+    return z3.simplify(d.sort.dom(d.t, term_of(k, d.sort.k)))
 
 
 def dict_get(d: VDict, k: Val) -> Val:
-    return mk_val(z3.Select(d.sort.val(d.t), term_of(k, d.sort.k)), d.sort.v)
+    return mk_val(z3.simplify(z3.Select(d.sort.val(d.t), term_of(k, d.sort.k))), d.sort.v)
 
 
 def dict_set(d: VDict, k: Val, v: Val) -> VDict:
     s = d.sort
     kt = term_of(k, s.k)
     vt = term_of(v, s.v)
-    has = s.dom(d.t, kt)
+    has = z3.simplify(s.dom(d.t, kt))
     n = s.n(d.t)
+    if z3.is_false(has):
+        return VDict(s.mk(z3.simplify(n + 1), z3.Store(s.keys(d.t), n, kt), z3.Store(s.idx(d.t), kt, n), z3.Store(s.val(d.t), kt, vt)), s)
+    if z3.is_true(has):
+        return VDict(s.mk(n, s.keys(d.t), s.idx(d.t), z3.Store(s.val(d.t), kt, vt)), s)
     return VDict(s.mk(z3.If(has, n, n + 1),
                       z3.If(has, s.keys(d.t), z3.Store(s.keys(d.t), n, kt)),
                       z3.If(has, s.idx(d.t), z3.Store(s.idx(d.t), kt, n)),
